@@ -85,7 +85,7 @@ PROPS = {
         technique="Lean 4 theorems over an executable model + differential correspondence with the Go code",
     ),
     "C03": dict(
-        modules=["SpatialId.Props.C03", "SpatialId.Props.Tie.Shift", "SpatialId.Props.Tie.HZoom", "SpatialId.Props.Facts.Zoom"],
+        modules=["SpatialId.Props.C03", "SpatialId.Props.Tie.Shift", "SpatialId.Props.Tie.HZoom", "SpatialId.Props.Facts.Zoom", "SpatialId.Props.Tie.VZoom"],
         families=[("chgExt", 12000, 60000), ("chgSp", 6000, 40000), ("axis", 12000, 100000), ("axisLattice", 1, 1)],
         trusted_base=COMMON_TB,
         assumptions=["int64(math.Pow(2, n)) is exact for 0 <= n <= 62"],
@@ -100,7 +100,7 @@ PROPS = {
         technique="Lean 4 theorems over an executable model + differential correspondence with the Go code",
     ),
     "C04": dict(
-        modules=["SpatialId.Props.C04", "SpatialId.Props.Facts.Zoom"],
+        modules=["SpatialId.Props.C04", "SpatialId.Props.Facts.Zoom", "SpatialId.Props.Tie.Higher"],
         families=[("mrgExt", 4000, 20000), ("mrgSp", 3000, 15000)],
         trusted_base=COMMON_TB + ["Go map-based grouping read as a declarative group-by (same groups, same member order)"],
         assumptions=["int64(math.Pow(2, n)) is exact for 0 <= n <= 62"],
@@ -117,7 +117,7 @@ PROPS = {
         technique="Lean 4 theorems over an executable model + differential correspondence with the Go code",
     ),
     "C05": dict(
-        modules=["SpatialId.Props.C05", "SpatialId.Props.Tie.Shift", "SpatialId.Props.Tie.Offset"],
+        modules=["SpatialId.Props.C05", "SpatialId.Props.Tie.Shift", "SpatialId.Props.Tie.Offset", "SpatialId.Props.Tie.VZoom"],
         families=[("ovE", 10000, 60000), ("ovEA", 5000, 30000), ("ovS", 10000, 60000), ("ovSA", 5000, 30000)],
         trusted_base=COMMON_TB + [
             "multidimensional-radix-tree (third party) is an oracle: IsOverlap(q) holds iff a stored key is a prefix of q or "
@@ -149,7 +149,7 @@ PROPS = {
         technique="Lean 4 theorems over an executable model + differential correspondence with the Go code",
     ),
     "C09": dict(
-        modules=["SpatialId.Props.C09", "SpatialId.Props.Facts.Point", "SpatialId.Props.Facts.Zoom"],
+        modules=["SpatialId.Props.C09", "SpatialId.Props.Facts.Point", "SpatialId.Props.Facts.Zoom", "SpatialId.Props.Tie.VZoom", "SpatialId.Props.Tie.Higher"],
         families=[("nest", 20000, 150000), ("zio", 3000, 20000), ("mrgkids", 3000, 20000), ("ovkids", 3000, 20000)],
         trusted_base=COMMON_TB + F64_TB,
         assumptions=["the binary64 quotient (lon+180)/360 has at most 53 significant bits (true of every hardware double)"],
@@ -162,7 +162,7 @@ PROPS = {
         technique="Lean 4 theorems (corollaries over the executable models) + composite differential checks on the Go code",
     ),
     "C10": dict(
-        modules=["SpatialId.Props.C10", "SpatialId.Props.Facts.Zoom"],
+        modules=["SpatialId.Props.C10", "SpatialId.Props.Facts.Zoom", "SpatialId.Props.Tie.VZoom"],
         families=[("notation", 30000, 200000)],
         trusted_base=COMMON_TB + ["strings.Split/strings.Join are inverse on '/'-free fields (Go library semantics)"],
         assumptions=[],
